@@ -788,7 +788,7 @@ def main():
     ap.add_argument("prop", nargs="?")
     ap.add_argument("--tier", default=os.environ.get("VERIF_TIER", "quick"))
     ap.add_argument("--only")
-    ap.add_argument("--jobs", type=int, default=int(os.environ.get("VERIF_JOBS", "8")))
+    ap.add_argument("--jobs", type=int, default=int(os.environ.get("VERIF_JOBS", "12")))
     ap.add_argument("--keep", action="store_true")
     ap.add_argument("--replay")
     ap.add_argument("--list", action="store_true")
